@@ -217,8 +217,8 @@ def miri_build(variant):
         die("building variant %s for the interpreter failed:\n%s" % (variant, p.stderr[-3000:]))
 
 
-def miri_run(variant, trace_path, miri_seed, rate):
-    d, cmd = miri_cmd(variant, ["free-replay", trace_path, "--lite"])
+def miri_run(variant, trace_path, miri_seed, rate, uninit=False):
+    d, cmd = miri_cmd(variant, ["free-replay", trace_path, "--lite"] + (["--uninit"] if uninit else []))
     t0 = time.time()
     p = subprocess.run(cmd, cwd=d, env=miri_env(variant, miri_seed, rate), capture_output=True, text=True)
     j = last_json(p.stdout)
@@ -392,15 +392,17 @@ def check(prop, tier):
             open(tp, "w").write(p.stdout)
             for k in range(scheds):
                 ms = (ws * 1000 + k) % (2 ** 31)
-                jobs.append((tp, ws, ms, miri_stats["preemption_rates"][k % 3]))
+                # every other schedule hands the library never-initialised output buffers
+                jobs.append((tp, ws, ms, miri_stats["preemption_rates"][k % 3], k % 2 == 1))
         def mrun(job):
-            tp, ws, ms, rate = job
-            j, ub, dt = miri_run(variant, tp, ms, rate)
+            tp, ws, ms, rate, uninit = job
+            j, ub, dt = miri_run(variant, tp, ms, rate, uninit)
             return job, j, ub, dt
         with ThreadPoolExecutor(JOBS) as ex:
             for job, j, ub, dt in ex.map(mrun, jobs):
-                tp, ws, ms, rate = job
+                tp, ws, ms, rate, uninit = job
                 miri_stats["runs"] += 1
+                miri_stats["runs_with_uninitialised_buffers"] = miri_stats.get("runs_with_uninitialised_buffers", 0) + (1 if uninit else 0)
                 miri_stats["wall_s"] += dt
                 hit = None
                 if ub:
@@ -424,7 +426,7 @@ def check(prop, tier):
                             stats["other_props"][v["prop"]] = stats["other_props"].get(v["prop"], 0) + 1
                 if hit and violation is None:
                     lines = [l for l in open(tp).read().splitlines() if l.startswith("T")]
-                    violation = ("miri", variant, ws, ms, rate, hit, lines)
+                    violation = ("miri", variant, ws, ms, rate, hit, lines, uninit)
         if len(samples) < 3 and jobs:
             samples.append(dict(engine="M", variant=variant, workload_seed=jobs[0][1], miri_seed=jobs[0][2],
                                 per_thread_calls=[l for l in open(jobs[0][0]).read().splitlines() if l.startswith("T")][:12]))
@@ -457,10 +459,10 @@ def check(prop, tier):
         return 0
 
     if violation[0] == "miri":
-        _, variant, ws, ms, rate, hit, lines = violation
+        _, variant, ws, ms, rate, hit, lines, uninit = violation
         path = os.path.join(REPLAYS, "%s-miri-%s-w%d-s%d.trace" % (prop, variant, ws, ms))
-        hdr = trace_header("free", variant, ws, prop, prop, "miri_seed=%d preemption_rate=%s" % (ms, rate))
-        lines = minimise_free(variant, hdr, lines, prop, ms, rate, known)
+        hdr = trace_header("free", variant, ws, prop, prop, "miri_seed=%d preemption_rate=%s uninit=%d" % (ms, rate, 1 if uninit else 0))
+        lines = minimise_free(variant, hdr, lines, prop, ms, rate, known, uninit=uninit)
         write_trace(path, hdr, lines)
         finish(prop, tier, base, stats, samples, miri_stats, cross_stats, t_start, 1)
         print("violation: %s: %s" % (hit["op"], hit["msg"]))
@@ -489,7 +491,7 @@ def run_gated_trace_records(variant, path):
     return j["records"]
 
 
-def minimise_free(variant, hdr, lines, prop, ms, rate, known, budget_s=150):
+def minimise_free(variant, hdr, lines, prop, ms, rate, known, budget_s=150, uninit=False):
     """Under the interpreter a shorter workload is a different schedule, so minimisation is a bounded search:
     drop whole threads / trailing calls and keep a candidate only if the same miri seed still fails."""
     t0 = time.time()
@@ -499,7 +501,7 @@ def minimise_free(variant, hdr, lines, prop, ms, rate, known, budget_s=150):
         os.close(fd)
         try:
             write_trace(tmp, hdr, cand)
-            j, ub, _ = miri_run(variant, tmp, ms, rate)
+            j, ub, _ = miri_run(variant, tmp, ms, rate, uninit)
         finally:
             os.unlink(tmp)
         if ub:
@@ -550,7 +552,10 @@ def finish(prop, tier, base, stats, samples, miri_stats, cross_stats, t_start, n
                                "short_buffer (caller passes less than the documented size)",
                                "dirty_buffer (reused buffer carries a poison pattern from the previous user)",
                                "thread_death (worker exits, its thread-local state is destroyed, a fresh worker replaces it)",
-                               "contended first use (engine M: all workers' first call has the same kind/type/radix)"],
+                               "contended first use (engine M: all workers' first call has the same kind/type/radix)",
+                               "uninitialised caller buffer (engine M, every other schedule: a read of a byte the library did not store is an interpreter error)",
+                               "options rebuilt in place (custom-NaN parse options are a stack local: same address, different contents)",
+                               "repeated call (the same call is re-issued later in the run, possibly on another worker; answers must agree)"],
         fault_kinds_not_applicable=["message loss/duplication/reordering, partitions, clock skew, disk errors, torn writes: the library has no "
                                     "network, clock or storage", "allocation failure: aborts the process (handle_alloc_error), nothing to observe"],
         thread_switches=stats["thread_switches"],
@@ -607,7 +612,8 @@ def replay(path):
                for x, y in zip(a, b) if x != y and not (x[0].startswith("WFloat") and "compact" in variant + hdr["against"])]
     else:
         miri_build(variant)
-        j, ub, _ = miri_run(variant, os.path.abspath(path), int(hdr.get("miri_seed", "0")), hdr.get("preemption_rate", "0.1"))
+        j, ub, _ = miri_run(variant, os.path.abspath(path), int(hdr.get("miri_seed", "0")), hdr.get("preemption_rate", "0.1"),
+                            hdr.get("uninit", "0") == "1")
         if ub:
             bad = [dict(prop=prop, op="(interpreter stopped the program)", msg=ub[:600])]
         else:
